@@ -55,15 +55,16 @@ func AppendTag(data []byte, wt WireType, index int) []byte {
 func Skip(data []byte, wt WireType) (int, error) {
 	switch wt {
 	case WTVarInt:
-		for i, v := range data {
-			if v&0x80 == 0 {
-				return i + 1, nil
-			}
-			if i > 9 {
-				return 0, fmt.Errorf("VarInt does not terminate")
-			}
+		// The same rules as when the value is read: the varint ends within 10
+		// bytes and fits in 64 bits
+		_, n := ReadVarUint(data)
+		if n < 0 {
+			return 0, fmt.Errorf("VarInt does not terminate")
 		}
-		return 0, fmt.Errorf("unexpected end of data. %X", data)
+		if n == 0 {
+			return 0, fmt.Errorf("unexpected end of data. %X", data)
+		}
+		return n, nil
 	case WT64:
 		if len(data) < 8 {
 			return 0, fmt.Errorf("not enough data for a 64 bit value. Have %d bytes", len(data))
